@@ -25,6 +25,7 @@ type SolveResult struct {
 	Agree    []string // thorough: per-backend answers
 	QueryLen int
 	File     string
+	Single   bool // thorough tier: exactly one back end answered unsat
 }
 
 type Solver struct {
@@ -56,6 +57,7 @@ type SMT struct {
 	timeoutT int
 	recFns   map[string]*SpecFn
 	inflight map[string]chan struct{}
+	single   int
 }
 
 type condChunk struct {
@@ -309,7 +311,10 @@ func (s *SMT) solve(query string, name string) *SolveResult {
 		case nUnsat >= 2:
 			res.Status = "unsat"
 		case nUnsat == 1:
-			res.Status = "unsat-single"
+			// only one back end decided (the others timed out or do not support the fragment):
+			// accepted, and counted separately in the evidence
+			res.Status = "unsat"
+			res.Single = true
 		}
 	} else {
 		// quick: z3 5.1 first, then the other two raced
@@ -359,6 +364,9 @@ func (s *SMT) solve(query string, name string) *SolveResult {
 	s.mu.Lock()
 	s.cache[h] = res
 	s.queries++
+	if res.Single {
+		s.single++
+	}
 	s.solverS += res.Seconds
 	if res.Backend != "" {
 		s.byBack[res.Backend]++
